@@ -8,7 +8,7 @@ func init() {
 			shards: [2]int{6, 12}, checks: [2]int{300, 4000}, timeout: [2]time.Duration{12 * min, 30 * min},
 			env: [2][]string{{"VERIF_REPS=8"}, {"VERIF_REPS=12"}}},
 		{name: "file", pkg: "./c10", run: "^TestFileOrdering$",
-			shards: [2]int{2, 4}, checks: [2]int{200, 3000}, timeout: [2]time.Duration{12 * min, 30 * min},
+			shards: [2]int{4, 8}, checks: [2]int{250, 3000}, timeout: [2]time.Duration{12 * min, 30 * min},
 			env: [2][]string{{"VERIF_REPS=4"}, {"VERIF_REPS=6"}}},
 		{name: "race", pkg: "./c10", run: "^TestRace$", bins: []string{"diskchild-race"},
 			shards: [2]int{6, 12}, checks: [2]int{8, 150}, timeout: [2]time.Duration{12 * min, 30 * min},
